@@ -224,12 +224,14 @@ def execute(case, ctx):
             total += case["tail"]
             # ---- unobserved run of the same seed ---------------------------------------------------------
             ctx.op(101)
+            rb.alloc_fill(0x00 if total % 2 else 0x5A)      # the reference run finds other garbage in its fresh heap memory than the observed run
             Ref = simgen.build(rebound, rb, cfg)
             for ev in case["events"]:
                 if ev["after"]:
                     Ref.steps(ev["after"])
                 stepping(Ref, ev)
             Ref.steps(case["tail"])
+            rb.alloc_fill(0xCB)
             if keep:
                 # with keep_unsynchronized=1 the trajectory lives in p_jh; the particle array holds whatever the last synchronize
                 # produced. Synchronise both (does not touch p_jh) and then everything must agree bit for bit.
